@@ -134,6 +134,8 @@ def run_case(case):
                 sc.op_amend()
             else:
                 # uncommitted work at stake
+                if op == "reset":
+                    sc.begin_undoable()
                 for _ in range(rng.choice([1, 2])):
                     sc.do_edit()
                 if op == "reset":
